@@ -422,12 +422,16 @@ func DecodeUnverifiedBaseResponse(encodedResponse string) (*types.UnverifiedBase
 		return nil, err
 	}
 
-	var response *types.UnverifiedBaseResponse
+	// Parse exactly like ValidateEncodedResponse does, so that the unverified
+	// values can never differ from the ones validation would report for the
+	// same document (declared encodings, duplicated or namespaced attributes).
+	_, el, err := parseResponse(raw, defaultMaxDecompressedResponseSize)
+	if err != nil {
+		return nil, err
+	}
 
-	err = maybeDeflate(raw, defaultMaxDecompressedResponseSize, func(maybeXML []byte) error {
-		response = &types.UnverifiedBaseResponse{}
-		return xml.Unmarshal(maybeXML, response)
-	})
+	response := &types.UnverifiedBaseResponse{}
+	err = xmlUnmarshalElement(el, response)
 	if err != nil {
 		return nil, err
 	}
@@ -498,12 +502,14 @@ func DecodeUnverifiedLogoutResponse(encodedResponse string) (*types.LogoutRespon
 		return nil, err
 	}
 
-	var response *types.LogoutResponse
+	// Parse exactly like ValidateEncodedLogoutResponsePOST does (see DecodeUnverifiedBaseResponse).
+	_, el, err := parseResponse(raw, defaultMaxDecompressedResponseSize)
+	if err != nil {
+		return nil, err
+	}
 
-	err = maybeDeflate(raw, defaultMaxDecompressedResponseSize, func(maybeXML []byte) error {
-		response = &types.LogoutResponse{}
-		return xml.Unmarshal(maybeXML, response)
-	})
+	response := &types.LogoutResponse{}
+	err = xmlUnmarshalElement(el, response)
 	if err != nil {
 		return nil, err
 	}
